@@ -163,6 +163,7 @@ def check(pid, cfg, args):
     errors = []
     regs = []
     labelled = []
+    retry_items = {}
     reports = []
     solver_time = 0.0
     ledger_path = os.path.join(VERIF, 'ledger', pid + '.json')
@@ -174,7 +175,7 @@ def check(pid, cfg, args):
     # ------------------------------------------------------------ deductive part
     ax_smoke_bad = False
     if not args.no_prove:
-        from zivc import run as zrun
+        from zivc import run as zrun, solve
         for modname in cfg.get('contracts', []):
             mod = importlib.import_module('contracts.' + modname)
             reg = mod.reg
@@ -182,24 +183,16 @@ def check(pid, cfg, args):
             only = cfg.get('only', {}).get(modname)
             reps, lemma_pairs, ax_smoke, _t = zrun.verify_registry(reg, only=only, both=(tier == 'thorough'))
             reports.extend(reps)
-            labelled.extend(stable_labels(reps, lemma_pairs))
+            new_lab = stable_labels(reps, lemma_pairs)
+            labelled.extend(new_lab)
+            for lbl, o, r, _k in new_lab:
+                if not r.discharged and not r.refuted:
+                    retry_items[lbl] = solve.Lazy(zrun.all_axioms(reg), o.hyps, o.goal)
             if ax_smoke is not None and (ax_smoke.z3 == 'unsat' or ax_smoke.cvc5 == 'unsat'):
                 ax_smoke_bad = True
             for rep in reps:
                 if rep.smoke is not None and (rep.smoke.z3 == 'unsat' or rep.smoke.cvc5 == 'unsat'):
                     errors.append('vacuous precondition for %s' % rep.proc.key)
-        # retry open obligations once (in parallel, larger budget): robustness against load-induced timeouts
-        open_ = [(lbl, o, r) for lbl, o, r, _ in labelled if not r.discharged and not r.refuted
-                 and ledger.get(lbl, {}).get('discharged')]
-        if open_ and len(open_) <= 48:
-            from zivc import solve
-            items = []
-            for lbl, o, r in open_:
-                reg = next((g for g in regs if lbl.split('::')[0] in g.procs), regs[0])
-                items.append((lbl, solve.Lazy(zrun.all_axioms(reg), o.hyps, o.goal)))
-            for (lbl, o, r), rr in zip(open_, solve.discharge(items, z3_timeout=30000)):
-                if rr.discharged:
-                    r.z3, r.cvc5 = rr.z3, rr.cvc5
     if ax_smoke_bad:
         errors.append('axioms are inconsistent (smoke obligation proved false)')
 
@@ -233,6 +226,7 @@ def check(pid, cfg, args):
 
     # ------------------------------------------------------------ C accelerator: functional contracts of the twins (cfun)
     cfun_assumptions = []
+    from zivc import solve
     if cfg.get('cfun') and not args.no_prove:
         from zivc import cfun, solve, core, symex
         for modname in cfg['cfun']:
@@ -257,12 +251,30 @@ def check(pid, cfg, args):
                     n = seen.get(o.label, 0)
                     seen[o.label] = n + 1
                     labelled.append(('cfun:%s::%s#%d' % (p.name, o.label, n), o, r, 'cfun:' + p.name))
+                    if not r.discharged and not r.refuted:
+                        retry_items['cfun:%s::%s#%d' % (p.name, o.label, n)] = solve.Lazy(axioms, o.hyps, o.goal)
                 if ex is not None:
                     sm = solve.discharge([('smoke', solve.Lazy(axioms, ex.pre, z3lib.BoolVal(False)))], z3_timeout=1500, use_cvc5=False)[0]
                     if sm.z3 == 'unsat':
                         errors.append('vacuous precondition for C function %s' % p.name)
                 if not obls:
                     errors.append('zero obligations generated for C function %s' % p.name)
+
+    # retry open obligations once (few at a time, larger budget): robustness against load-induced timeouts.  Only clauses the
+    # committed ledger records as discharged are retried -- an obligation that was never discharged stays open.
+    if retry_items and not args.no_prove:
+        def _clause(lbl):
+            return lbl.rsplit('#', 1)[0]
+        known_clauses = {_clause(l) for l, rec in ledger.items() if rec.get('discharged')}
+        open_ = [(lbl, o, r) for lbl, o, r, _ in labelled if lbl in retry_items and not r.discharged and not r.refuted
+                 and (_clause(lbl) in known_clauses or args.write_ledger)
+                 and not any(k.get('obligation') and re.search(k['obligation'], lbl) for k in known)]
+        if open_ and len(open_) <= 64:
+            items = [(lbl, retry_items[lbl]) for lbl, o, r in open_]
+            for (lbl, o, r), rr in zip(open_, solve.discharge(items, jobs=4, z3_timeout=30000)):
+                if rr.discharged:
+                    r.z3, r.cvc5 = rr.z3, rr.cvc5
+                    r.time += rr.time
 
     n_obl = len(labelled)
     n_dis = sum(1 for _, _, r, _ in labelled if r.discharged)
